@@ -30,7 +30,7 @@ void harness(void)
     unsigned n = nondet_uint();
     unsigned c = nondet_uint();
 #ifdef VF_EXACT_N
-    VF_ASSUME(n == VF_N);
+    n = VF_N;                  /* one query per length: loop exits are concrete */
 #else
     VF_ASSUME(n <= VF_N);
 #endif
